@@ -530,6 +530,44 @@ func runC08(c *Ctx) {
 		bad = "the routine never performs an atomic exchange on the lock word"
 	}
 	c.check(bad == "", "C08.R3", "atomic-writes sync.archAcquireSpinlock", fmt.Sprintf("%d memory-writing instruction(s), all atomic exchanges on 0(state)", len(xchg)), bad, where...)
+	// (a2) every access through the state pointer touches exactly the 32-bit lock
+	// word: a wider compare or load also reads whatever follows the lock in memory
+	{
+		bad2 := ""
+		var where2 []string
+		nacc := 0
+		for i, x := range ins {
+			if x.op == "CALL" || x.op == "JMP" {
+				continue
+			}
+			for _, a := range x.args {
+				mm := memOperandRE.FindStringSubmatch(a)
+				if mm == nil || mm[2] == "FP" || mm[2] == "SB" || mm[2] == "SP" {
+					continue
+				}
+				isState, n := true, 0
+				for d := range reaching(mm[2], i) {
+					n++
+					if d < 0 || !(ins[d].op == "MOVQ" && strings.HasPrefix(ins[d].args[0], "state+0(FP)")) {
+						isState = false
+					}
+				}
+				if !isState || n == 0 {
+					continue
+				}
+				nacc++
+				if !strings.HasSuffix(x.op, "L") {
+					bad2 = fmt.Sprintf("%s %s accesses the lock word with an operand size other than 32 bits: the bytes behind the lock are read (or written) as part of it", x.op, strings.Join(x.args, ", "))
+					where2 = append(where2, pos(i))
+				}
+				if mm[1] != "" && mm[1] != "0" {
+					bad2 = fmt.Sprintf("%s %s addresses memory next to the lock word", x.op, strings.Join(x.args, ", "))
+					where2 = append(where2, pos(i))
+				}
+			}
+		}
+		c.check(bad2 == "" && nacc > 0, "C08.R3", "lock-word-width sync.archAcquireSpinlock", fmt.Sprintf("%d access(es) through the state pointer, all 32 bits wide at offset 0", nacc), bad2, where2...)
+	}
 	// (b) exchanged-in value non-zero
 	bad = ""
 	var xreg string
